@@ -14,6 +14,9 @@ func (in *Interp) unop(fr *frame, instr *ssa.UnOp) Value {
 	switch instr.Op {
 	case token.MUL: // load
 		in.nilCheck(fr, x, instr)
+		if in.race != nil {
+			in.raceLoc(x, false, fr.site(instr))
+		}
 		return load(x)
 	case token.NOT:
 		return Not(x.(*Term))
@@ -729,6 +732,7 @@ func (in *Interp) lookup(fr *frame, instr *ssa.Lookup) Value {
 		in.check(fr, Ult(idx, s.len), "index out of range (string)", instr)
 		return s.arr.Select(Add(s.off, idx))
 	case *MapObj:
+		in.raceMap(s, false, fr.site(instr))
 		k := fr.get(instr.Index)
 		vt := instr.X.Type().Underlying().(*types.Map).Elem()
 		var v Value
@@ -763,6 +767,7 @@ func (in *Interp) mapFind(m *MapObj, k Value, site string) int {
 }
 
 func (in *Interp) mapUpdate(fr *frame, m *MapObj, k, v Value, site string) {
+	in.raceMap(m, true, site)
 	if i := in.mapFind(m, k, site); i >= 0 {
 		m.entries[i].v = v
 		return
@@ -792,6 +797,9 @@ type iter struct {
 }
 
 func (in *Interp) rangeIter(fr *frame, x Value, instr *ssa.Range) Value {
+	if m, ok := x.(*MapObj); ok {
+		in.raceMap(m, false, fr.site(instr))
+	}
 	switch s := x.(type) {
 	case *MapObj:
 		mt := instr.X.Type().Underlying().(*types.Map)
@@ -913,10 +921,17 @@ func (in *Interp) callBuiltin(fr *frame, b *ssa.Builtin, args []Value, cc *ssa.C
 			return I64(int64(x.cap))
 		}
 	case "copy":
+		if in.race != nil {
+			in.raceCopy(args[0], args[1], site)
+		}
 		return in.builtinCopy(args[0], args[1])
 	case "append":
+		if in.race != nil {
+			in.raceAppend(args[0], args[1], site)
+		}
 		return in.builtinAppend(fr, args[0], args[1], cc, site)
 	case "delete":
+		in.raceMap(args[0].(*MapObj), true, site)
 		in.mapDelete(args[0].(*MapObj), args[1], site)
 		return nil
 	case "panic":
